@@ -252,6 +252,9 @@ def normalise(raw_text):
     if cren:
         j = json.loads(apply_renames(json.dumps(j), cren))
         allren.update(cren)
+    # (4b) closures that are called directly where they are defined are local helpers
+    from .inline import inline_local_closure_calls
+    inline_local_closure_calls(j)
     # (5) named booleans: keep the paths that decided a bool local apart up to the branch on it
     from .inline import split_bool_merges
     for bj in j["bodies"]:
